@@ -23,8 +23,8 @@ REQUIRED_THEOREMS = [
     'C15_predictive_entries', 'C15_predictive_law', 'C15_predictive_law_gaussian',
     'C15_predictive_law_multiplicative', 'C15_predictive_law_lognormal', 'C15_population_law',
     'C15_population_law_gaussian', 'C15_population_law_lognormal', 'C15_population_two_stage',
-    'C15_posterior_joint_partial', 'C15_posterior_joint', 'C15_posterior_joint_counterexample', 'C15_pam_weights', 'C15_table_labels',
-    'C15_table_labels_pam', 'C15_times_ascending', 'C15_nids', 'C15_nids_counterexample']
+    'C15_posterior_joint', 'C15_posterior_kept_draws', 'C15_posterior_joint_counterexample', 'C15_pam_weights',
+    'C15_table_labels', 'C15_table_labels_pam', 'C15_times_ascending', 'C15_nids', 'C15_nids_counterexample']
 RULE = ('PredictiveModel, PopulationPredictiveModel (elementary / covariate-wrapped / composed population models, '
         'centred and non-centred), Prior-, Posterior- and PAM predictive models over individual- and '
         'population-level models; 1-3 outputs with mixed error models on a toy mechanistic model with '
@@ -39,10 +39,7 @@ ASSUMPTIONS = [
     'the mechanistic model is an arbitrary function (toy model with closed-form outputs)',
     'the dosing-regimen table itself is C10\'s subject: here only its placement in the returned table']
 
-AS_IS = c16.AS_IS
-# model variants tried in this order: the code as it is, then with the repaired PredictiveModel (one generator
-# threaded through the error models)
-VARIANTS = (c16.AS_IS, (False, True))
+AS_IS = c16.AS_IS          # the model of the code as it is; the pre-fix variants are not compared with chi
 WORLD = ('LS', 12345, 0)
 
 
@@ -136,6 +133,20 @@ def sig_slices(kinds, sig):
     return out
 
 
+def averaged_dose_rows(ctx, tag, avg_model, doses, times, include, inp):
+    """prior / posterior / PAM models: the dose events are appended once for all samples (no ID)"""
+    reg = avg_model.get_dosing_regimen(final_time=float(np.max(times)))
+    want = []
+    if include and reg is not None:
+        want = sorted((None, float(a), float(b), float(c)) for a, b, c in zip(reg['Time'], reg['Duration'], reg['Dose']))
+    key = lambda r: tuple((x is None, x) for x in r)
+    ctx.spec(tag, rows_close(sorted(doses, key=key), sorted(want, key=key)), inp,
+             {'doses': doses[:4], 'want': want[:4]})
+
+
+REGIMEN = dict(dose=2.0, start=1.0, duration=0.5, period=2.0, num=3)
+
+
 class Recorder:
     """a PredictiveModel that remembers the parameter vectors it is asked to sample with"""
 
@@ -219,7 +230,7 @@ def patient_vector(ctx, pop, theta, reads_by_dim, i, rp, python=False):
             elif e == 'pooled':
                 v = pr[d]
             elif e == 'hetero':
-                v = pr[i * w + d]          # the code as it is: stored row i, whatever was drawn
+                v = pr[int(z[0]) * w + d]  # the drawn individual's row of the stored parameters
             else:
                 mu, sg = pr[d], pr[w + d]
                 v = float(truncnorm.ppf(z[0], a=-mu / sg, b=np.inf, loc=mu, scale=sg))
@@ -304,20 +315,10 @@ def case_predictive(ctx, chi, rng, k):
     ts = model_sorted_times(ctx, times)
     ctx.agree('C15.sorted_times', sorted(float(t) for t in times), ts, inp)
     label_spec(ctx, 'C15.table_labels/PredictiveModel', meas, n1, outputs, times, inp, df)
-    # the code as it is hands the integer seed to every error model; the repaired code threads one generator
-    for var in VARIANTS:
-        m = K.model_run(ctx, var, ['predictive', spec['kinds'], len(times), n1], s, WORLD)
-        rp = K.Replay(WORLD, s, {}).run(m.calls)
-        ent = predict_entries(ctx, spec, mech, ts, m.cells, rp, lambda u: params)
-        pred = table_from_entries(ctx, 'predictive', outputs, ts, n1, ent)
-        if rows_close(meas, pred):
-            break
-    else:
-        m = K.model_run(ctx, AS_IS, ['predictive', spec['kinds'], len(times), n1], s, WORLD)
-        rp = K.Replay(WORLD, s, {}).run(m.calls)
-        pred = table_from_entries(ctx, 'predictive', outputs, ts, n1,
-                                  predict_entries(ctx, spec, mech, ts, m.cells, rp, lambda u: params))
-    ctx.branches.add('predictive-variant:%s' % (var,))
+    m = K.model_run(ctx, AS_IS, ['predictive', spec['kinds'], len(times), n1], s, WORLD)
+    rp = K.Replay(WORLD, s, {}).run(m.calls)
+    ent = predict_entries(ctx, spec, mech, ts, m.cells, rp, lambda u: params)
+    pred = table_from_entries(ctx, 'predictive', outputs, ts, n1, ent)
     ctx.agree('C15.table/PredictiveModel', meas, pred, inp)
     ent_py = predict_entries(ctx, spec, mech, ts, m.cells, rp, lambda u: params, python=True)
     ctx.spec('C15.predictive_law/PredictiveModel', rows_close(
@@ -348,15 +349,19 @@ def pop_params_of_unit(ctx, spec, n, gen_wire, world, rp, python=False):
 
 def case_population(ctx, chi, rng, k):
     n = int(rng.integers(1, 5))
-    spec = gen_spec(rng, n, allow_pop=True)
+    spec = gen_spec(rng, n, allow_pop=True, allow_hetero=True)
     if spec['type'] != 'pop':
         spec['type'] = 'pop'
         spec['pop'] = c16.gen_pop(rng, spec['n_mech'] + len(spec['sig']), n, positive_from=spec['n_mech'],
-                                  allow_hetero=False)
+                                  allow_hetero=True)
         spec['pop']['composed'] = True
         spec['theta'] = c16.pop_params(rng, spec['pop'])
     # the population model was last used with another number of individuals
     stored = int(rng.choice([1, 2, 3, 7]))
+    if any(sub['elem'] == 'hetero' for sub in spec['pop']['subs']):
+        # a heterogeneous sub-model has one parameter row per stored individual
+        spec['pop']['n_ids'] = stored
+        spec['theta'] = c16.pop_params(rng, spec['pop'])
     times = gen_times(rng)
     dosed = bool(rng.random() < 0.3)
     ppm, pm, mech, pop = build(chi, spec, dosed=dosed, record=True)
@@ -467,27 +472,33 @@ def inner_predict(ctx, spec, mech, ts, cells, rp, n, unit_params, gen_of_unit, w
 
 def case_prior(ctx, chi, rng, k):
     n = int(rng.integers(1, 4))
-    spec = gen_spec(rng, n, allow_pop=True, allow_hetero=False, allow_trunc=False, allow_cov=False)
+    spec = gen_spec(rng, n, allow_pop=True, allow_hetero=True, allow_trunc=False, allow_cov=False)
     if spec['type'] == 'pop':
         for sub in spec['pop']['subs']:
             if sub['elem'] == 'gaussian':
                 sub['elem'] = 'logNormal'
         spec['theta'] = c16.pop_params(rng, spec['pop'])
     times = gen_times(rng)
-    model, pm, mech, pop = build(chi, spec)
+    dosed = bool(rng.random() < 0.3)
+    include = bool(rng.random() < 0.6)
+    model, pm, mech, pop = build(chi, spec, dosed=dosed)
     base = spec['psi'] + spec['sig'] if spec['type'] == 'indiv' else spec['theta']
     prior = c16.lognormal_prior(base)
     prm = chi.PriorPredictiveModel(model, prior)
+    if dosed:
+        prm.set_dosing_regimen(**REGIMEN)
     s = int(rng.integers(1 << 30))
-    inp = {'case': k, 'class': 'PriorPredictiveModel', 'spec': spec, 'times': times, 'n': n, 'seed': s}
+    inp = {'case': k, 'class': 'PriorPredictiveModel', 'spec': spec, 'times': times, 'n': n, 'seed': s,
+           'dosed': dosed, 'include_regimen': include}
     ctx.case('PriorPredictiveModel/%s' % spec['type'], nontrivial='Prior/%s/%d/%d' % (spec['type'], len(spec['kinds']), n),
              sample=inp)
     K.set_world(WORLD)
-    df = prm.sample(times, n_samples=n, seed=s)
+    df = prm.sample(times, n_samples=n, seed=s, include_regimen=include)
     outputs = model.get_output_names()
-    meas, _, _ = canon_rows(df, outputs)
+    meas, _, doses = canon_rows(df, outputs)
     ts = model_sorted_times(ctx, times)
     label_spec(ctx, 'C15.table_labels/PriorPredictiveModel', meas, n, outputs, times, inp, df)
+    averaged_dose_rows(ctx, 'C15.table_labels/PriorPredictiveModel.dose_rows', prm, doses, times, include, inp)
     bounds = {'ids': spec['pop']['n_ids']} if spec['type'] == 'pop' else {}
     # a complete parameter set per sample, drawn from the prior
     keep = np.random.get_state()
@@ -509,13 +520,7 @@ def case_prior(ctx, chi, rng, k):
             preds.append(table_from_entries(ctx, 'averaged', outputs, ts, n, ent))
         return rows, preds
 
-    for var in VARIANTS:
-        rows, preds = attempt(var)
-        if rows_close(meas, preds[0]):
-            break
-    else:
-        rows, preds = attempt(AS_IS)
-    ctx.branches.add('prior-variant:%s' % (var,))
+    rows, preds = attempt(AS_IS)
     ctx.spec('C15.prior_draws', core.close([rows[u] for u in sorted(rows)], direct[:len(rows)]), inp)
     ctx.agree('C15.table/PriorPredictiveModel', meas, preds[0], inp)
     ctx.spec('C15.prior_predictive_law', rows_close(meas, preds[1]), inp)
@@ -557,10 +562,19 @@ def joint_rows(ds, names, ids, individual):
 
 def case_posterior(ctx, chi, rng, k, layout=None):
     n = int(rng.integers(1, 5))
-    spec = gen_spec(rng, n, allow_pop=True, allow_hetero=False, allow_trunc=True, allow_cov=False)
+    spec = gen_spec(rng, n, allow_pop=True, allow_hetero=True, allow_trunc=True, allow_cov=False)
     times = gen_times(rng)
-    model, pm, mech, pop = build(chi, spec, record=True)
-    names = model.get_parameter_names()
+    dosed = bool(rng.random() < 0.3)
+    include = bool(rng.random() < 0.6)
+    model, pm, mech, pop = build(chi, spec, record=True, dosed=dosed)
+    model_names = model.get_parameter_names()
+    # the dataset may name its variables differently (param_map)
+    param_map = {}
+    if rng.random() < 0.4:
+        for nm in model_names:
+            if rng.random() < 0.6:
+                param_map[nm] = 'post ' + nm
+    names = [param_map.get(nm, nm) for nm in model_names]
     base = spec['psi'] + spec['sig'] if spec['type'] == 'indiv' else spec['theta']
     n_chains, n_draws = int(rng.integers(1, 4)), int(rng.integers(2, 5))
     pad = int(rng.choice([0, 0, 1])) if n_draws > 2 else 0
@@ -577,21 +591,25 @@ def case_posterior(ctx, chi, rng, k, layout=None):
     pop_level = [nm for nm in names if 'Sigma' in nm] if ids is not None else list(names)
     ds = K.make_posterior(names, n_chains, n_draws, ids, lambda p, c, d, i: float(base[p] * jit[p, c, d, i]),
                           pop_level=pop_level, pad=pad, order=order)
-    ppm = chi.PosteriorPredictiveModel(model, ds)
+    ppm = chi.PosteriorPredictiveModel(model, ds, param_map=param_map or None)
+    if dosed:
+        ppm.set_dosing_regimen(**REGIMEN)
     individual = None if ids is None or rng.random() < 0.3 else ids[int(rng.integers(len(ids)))]
     ind_idx = 0 if individual is None else ids.index(individual)
     s = int(rng.integers(1 << 31))
     inp = {'case': k, 'class': 'PosteriorPredictiveModel', 'spec': spec, 'times': times, 'n': n, 'seed': s,
-           'chains': n_chains, 'draws': n_draws, 'pad': pad, 'ids': ids, 'individual': individual, 'layout': layout}
+           'chains': n_chains, 'draws': n_draws, 'pad': pad, 'ids': ids, 'individual': individual, 'layout': layout,
+           'param_map': param_map, 'dosed': dosed, 'include_regimen': include}
     ctx.case('PosteriorPredictiveModel/%s/%s' % (spec['type'], layout),
              nontrivial='Posterior/%s/%s/%dx%d/%s' % (spec['type'], layout, n_chains, n_draws, pad), sample=inp)
     K.set_world(WORLD)
     pm.seen = []
-    df = ppm.sample(times, n_samples=n, individual=individual, seed=s)
+    df = ppm.sample(times, n_samples=n, individual=individual, seed=s, include_regimen=include)
     outputs = model.get_output_names()
-    meas, _, _ = canon_rows(df, outputs)
+    meas, _, doses = canon_rows(df, outputs)
     ts = model_sorted_times(ctx, times)
     label_spec(ctx, 'C15.table_labels/PosteriorPredictiveModel', meas, n, outputs, times, inp, df)
+    averaged_dose_rows(ctx, 'C15.table_labels/PosteriorPredictiveModel.dose_rows', ppm, doses, times, include, inp)
     # the parameter vectors handed to the wrapped model
     if spec['type'] == 'indiv':
         drawn = [list(v) for v in pm.seen]
@@ -621,16 +639,9 @@ def case_posterior(ctx, chi, rng, k, layout=None):
             preds.append(None if ent is None else table_from_entries(ctx, 'averaged', outputs, ts, n, ent))
         return {'ok': True, 'params': unit_params, 'preds': preds}
 
-    # the code as it is flattens every variable in its own dimension order; the repaired code transposes
-    # every variable to (chain, draw, ...) first
-    wire = posterior_wire(ds, names, ids)
-    canonical = [[w_[0], False, w_[2]] for w_ in wire]
-    res = attempt(wire)
-    if wire != canonical and not (res['ok'] and res['preds'][0] is not None and rows_close(meas, res['preds'][0])):
-        res2 = attempt(canonical)
-        if res2['ok'] and res2['preds'][0] is not None and rows_close(meas, res2['preds'][0]):
-            res = res2
-            ctx.branches.add('posterior-variant:transposed')
+    # every variable is transposed to (chain, draw, ...) before it is flattened: the model is given the
+    # variables with their own dimension orders and does the same
+    res = attempt(posterior_wire(ds, names, ids))
     ctx.agree('C15.posterior.accepts', True, res['ok'], inp)
     if not res['ok']:
         return
@@ -688,37 +699,29 @@ def case_pam(ctx, chi, rng, k):
     which = [min(max(w, 0), n_models - 1) for w in which]
     # allocation: replay of the weighted choice on the stream the code uses
     p = np.asarray(weights) / np.sum(weights)
-    u_legacy = np.random.RandomState(world[1]).random_sample(n)
-    draws_legacy = [int(x) for x in np.searchsorted(np.cumsum(p), u_legacy, side='right')]
     g = np.random.default_rng(s)
     draws_rng = [int(x) for x in g.choice(np.arange(n_models), p=p, size=n)]
     counts_obs = [which.count(mdl) for mdl in range(n_models)]
-    cl, idm_l, wn = ctx.model('C15.pam', n_models, draws_legacy, weights)
-    cr, idm_r, _ = ctx.model('C15.pam', n_models, draws_rng, weights)
-    legacy = counts_obs == cl
-    ctx.agree('C15.pam.allocation', which, idm_l if legacy or counts_obs != cr else idm_r, inp)
+    cr, idm_r, wn = ctx.model('C15.pam', n_models, draws_rng, weights)
+    ctx.agree('C15.pam.allocation', which, idm_r, inp)
     ctx.agree('C15.pam.weights', list(pam.get_weights()), wn, inp)
-    ctx.spec('C15.pam_weights/allocation', which in (idm_l, idm_r), inp,
-             {'observed': which, 'global_stream': idm_l, 'seeded_stream': idm_r})
+    # a model chosen with the stated weights, by the seeded generator: the ID -> model list is the sorted list
+    # of the weighted draws of default_rng(seed)
+    ctx.spec('C15.pam_weights/allocation', which == sorted(draws_rng), inp,
+             {'observed': which, 'weighted_draws': draws_rng})
     ctx.spec('C15.pam_weights/normalised', core.close(list(pam.get_weights()), list(p)), inp)
     # values: model with the observed allocation
     entry = ['pam', [[K.spec_wire(spec), int(c)] for c in counts_obs], len(times)]
-    v, m, matched = None, None, False
-    for var in (AS_IS, c16.INTENDED, (True, False), (False, True)):
-        m = K.model_run(ctx, var, entry, s, world)
-        rp = K.Replay(world, s, {'rows': n_chains * n_draws, 'pam_p': p}).run(m.calls)
-        unit_params = {}
-        for c in m.cells:
-            mdl = idm_l[c['unit']] if legacy else which[c['unit']]
-            ok, cols, _, _ = ctx.model('C15.posterior', posterior_wire(dss[mdl], names, ['a', 'b']), 0)
-            idx = int(rp.value(c['par'][0]))
-            unit_params[c['unit']] = [cols[q][idx] for q in range(len(names))]
-        ent = predict_entries(ctx, spec, mech, ts, m.cells, rp, lambda u: unit_params[u])
-        pred = table_from_entries(ctx, 'pam', outputs, ts, n, ent, counts=counts_obs)
-        if rows_close(meas, pred):
-            matched = True
-            break
-    ctx.branches.add('pam-variant:%s' % (var,))
+    m = K.model_run(ctx, AS_IS, entry, s, world)
+    rp = K.Replay(world, s, {'rows': n_chains * n_draws, 'pam_p': p}).run(m.calls)
+    unit_params = {}
+    for c in m.cells:
+        mdl = which[c['unit']]
+        ok, cols, _, _ = ctx.model('C15.posterior', posterior_wire(dss[mdl], names, ['a', 'b']), 0)
+        idx = int(rp.value(c['par'][0]))
+        unit_params[c['unit']] = [cols[q][idx] for q in range(len(names))]
+    ent = predict_entries(ctx, spec, mech, ts, m.cells, rp, lambda u: unit_params[u])
+    pred = table_from_entries(ctx, 'pam', outputs, ts, n, ent, counts=counts_obs)
     ctx.agree('C15.table/PAMPredictiveModel', meas, pred, inp)
     # every ID's parameter vector is one joint row of the posterior of its model
     jr = [joint_rows(ds, names, ['a', 'b'], 'a') for ds in dss]
@@ -766,23 +769,17 @@ def case_nids(ctx, chi, rng, k):
     except Exception as e:  # noqa
         raised = core.errkind(e)
         ctx.errkinds.add(raised)
-    # heterogeneous dimensions: the code as it is returns the stored individuals, the repaired code the drawn ones
-    pats, cols, pooled_n = ctx.model('C15.nids', True, stored, n)
-    observed = raised if raised else len(pm.seen)
-    if which == 'hetero' and bare and observed != (cols if isinstance(cols, str) else pats):
-        pats, cols, pooled_n = ctx.model('C15.nids', False, stored, n)
-        ctx.branches.add('nids-variant:drawn-individuals')
+    pats, cols, pooled_n, accepted = ctx.model('C15.nids', False, stored, n)
     if which == 'pooled':
         ctx.agree('C15.nids/pooled.patients', None if raised else len(pm.seen), pooled_n, inp)
         ok = raised is None and len(pm.seen) == n and all(abs(v[-1] - sp[-1]) < 1e-12 for v in pm.seen)
         ctx.spec('C15.sample_size/PooledModel', ok, inp, {'raised': raised})
         return
     # heterogeneous
-    if bare:
-        if isinstance(cols, str):
-            ctx.agree('C15.nids/hetero.bare', raised, cols, inp)
-        else:
-            ctx.agree('C15.nids/hetero.bare', None if raised else len(pm.seen), pats, inp)
+    if isinstance(cols, str) or not accepted:
+        ctx.agree('C15.nids/hetero', raised, cols if isinstance(cols, str) else 'err:valueError', inp)
+    else:
+        ctx.agree('C15.nids/hetero', None if raised else len(pm.seen), pats, inp)
     # the property: n individuals drawn from the population model (rows of the stored parameters, chosen
     # with the seeded generator), whatever the stored n_ids
     rows_ = np.asarray(sp).reshape(stored, -1)
@@ -801,24 +798,22 @@ CASES = [case_predictive, case_population, case_prior, case_posterior, case_pam,
 
 
 def corpus(ctx, chi):
-    # witness of C15_posterior_joint_counterexample: variables with different dimension orders
+    # input class of C15_posterior_joint_counterexample (pre-fix code): variables with different dimension orders
     for j in range(2):
-        K.guarded(ctx, 'C15.no_exception/case_posterior', {'case': 900000 + j},
-                  lambda: case_posterior(ctx, chi, ctx.sub_rng(900000 + j), 900000 + j, layout='mixed'))
+        ctx.guard(case_posterior, ctx, chi, ctx.sub_rng(900000 + j), 900000 + j, layout='mixed')
 
 
 def run(ctx):
     chi = core.import_chi()
     corpus(ctx, chi)
-    reps = 45 if ctx.tier == 'quick' else 900
+    reps = 120 if ctx.tier == 'quick' else 3000
     k = 0
     for rep in range(reps):
         for case in CASES:
             if case is case_population_broadcast_covariates and rep % 5:
                 k += 1
                 continue
-            K.guarded(ctx, 'C15.no_exception/%s' % case.__name__, {'case': k},
-                      lambda: case(ctx, chi, ctx.sub_rng(k), k))
+            ctx.guard(case, ctx, chi, ctx.sub_rng(k), k)
             k += 1
 
 
